@@ -3,6 +3,7 @@ import Resolvo.Enc.ReferenceProofs
 import Resolvo.MDet.AsyncProofs
 import Resolvo.MDet.AsyncInv
 import Resolvo.MDet.AsyncOnce
+import Resolvo.MDet.CheckedProofs
 /-!
 # C10 / C11 — asynchronous metadata requests
 
@@ -95,5 +96,48 @@ theorem request_guard (U : Universe) (tid n : Nat) (a : AS) (s s' : S) (a' : AS)
 example : ∃ a' s', runM (pollCands {} 0 5 .notStarted {}) {} = (.ok (.owner, a'), s') ∧
     ∃ a'' s'', runM (pollCands {} 1 5 .notStarted a') s' = (.ok (.listener, a''), s'') ∧ a''.gates = a'.gates :=
   ⟨_, _, rfl, _, _, rfl, rfl⟩
+
+/-! ## Any completion order gives a correct result (checked model)
+
+The completion order of the outstanding requests (`S.sched`), the mode (`asyncMode`, `gateFs`) and everything else
+about the solver state are universally quantified in the theorems about `solveChecked`; the statements below spell
+this out for C10. `withOrder s sched` is the solver state `s` switched to the asynchronous provider with the
+completion order `sched`. -/
+
+/-- the solver state `s` with an asynchronous provider (optionally asynchronous filter/sort) whose outstanding
+    requests complete in the order `sched` -/
+def withOrder (s : S) (sched : List String) (gateFs : Bool := false) : S :=
+  { s with asyncMode := true, gateFs := gateFs, sched := sched }
+
+/-- **Any completion order: the solution is valid per C01.** -/
+theorem any_order_valid (U : Universe) (P : Problem) (fuel : Nat) (s : S) (sched : List String) (g : Bool) (sol : List Nat)
+    (h : (solveChecked U P fuel (withOrder s sched g)).1 = .ok sol) : Valid U P sol (exemptOf P sol) :=
+  solveChecked_ok_valid U P fuel _ sol h
+
+/-- **Any completion order: Unsolvable only if there is no solution.** -/
+theorem any_order_unsat_sound (U : Universe) (P : Problem) (fuel : Nat) (s : S) (sched : List String) (g : Bool) (c : List Nat)
+    (h : (solveChecked U P fuel (withOrder s sched g)).1 = .unsat c) : ¬ Solvable U P :=
+  solveChecked_unsat_sound U P fuel _ c h
+
+/-- **The verdict does not depend on the completion order, and equals the synchronous verdict**: no two runs — under
+    any two completion orders, or one of them synchronous (`s₂` arbitrary) — can end one with a solution and the
+    other Unsolvable. -/
+theorem verdict_independent_of_order (U : Universe) (P : Problem) (hsoft : P.soft = []) (fuel₁ fuel₂ : Nat) (s₁ s₂ : S)
+    (sched : List String) (g : Bool) (sol c : List Nat)
+    (h1 : (solveChecked U P fuel₁ (withOrder s₁ sched g)).1 = .ok sol) :
+    (solveChecked U P fuel₂ s₂).1 ≠ .unsat c := by
+  intro h2
+  exact solveChecked_unsat_sound U P fuel₂ s₂ c h2 (solveChecked_ok_solvable U P fuel₁ _ sol hsoft h1)
+
+/-- with soft requirements the hard verdict is still order-independent: a solvable hard problem never ends Unsolvable -/
+theorem any_order_soft_never_error (U : Universe) (P : Problem) (fuel : Nat) (s : S) (sched : List String) (g : Bool)
+    (hs : Solvable U P) : ∀ c, (solveChecked U P fuel (withOrder s sched g)).1 ≠ .unsat c :=
+  solveChecked_soft_never_error U P fuel _ hs
+
+/-- when the first choices are mutually compatible, every completion order yields exactly them (C07 under C10) -/
+theorem any_order_preferred (U : Universe) (P : Problem) (fuel : Nat) (s : S) (sched : List String) (g : Bool)
+    (sol pref : List Nat) (hsoft : P.soft = []) (hpc : preferredConsistent U P = some pref)
+    (h : (solveChecked U P fuel (withOrder s sched g)).1 = .ok sol) : ∀ x, x ∈ sol ↔ x ∈ pref :=
+  solveChecked_preferred U P fuel _ sol pref hsoft hpc h
 
 end Resolvo.C10
